@@ -156,6 +156,13 @@ inductive Expr where
   | cond (c t e : Expr)
   | member (optional : Bool) (e : Expr) (name : String)
   | index (e i : Expr)
+  /-- `InvocationExpression` without type arguments; `args` is an argument list (`argsNil` / `argsCons`) -/
+  | invoke (f args : Expr)
+  /-- the argument list `ast.Arguments`, kept inside the same inductive type so that it stays a plain
+      (non-mutual, non-nested) one: `argsNil` / `argsCons label argument rest` (label `""` = none).
+      They are not expressions: `Expr.wf` accepts them only as the `args` of an `invoke`. -/
+  | argsNil
+  | argsCons (label : String) (a rest : Expr)
   deriving DecidableEq, Repr, Inhabited
 
 /-- `precedence()` of each expression kind (ast/expression.go, after fix 3c33138: negative literals
@@ -169,7 +176,8 @@ def Expr.prec : Expr → Nat
   | .binary op _ _ => op.prec
   | .cast .. => precCasting
   | .cond .. => precTernary
-  | .member .. | .index .. => precAccess
+  | .member .. | .index .. | .invoke .. => precAccess
+  | .argsNil | .argsCons .. => precLiteral
 
 /-! ## Reading the harness's S-expressions -/
 
@@ -189,6 +197,7 @@ partial def readTy : SX → Option Ty
   | .list [.atom "ref", .list [.atom "noauth"], t] => (readTy t).map .reference
   | _ => none
 
+mutual
 partial def readExpr : SX → Option Expr
   | .list [.atom "id", .atom n] => some (.ident n)
   | .list [.atom "int", .atom s, .atom l] => some (.int (s == "-") l)
@@ -206,7 +215,16 @@ partial def readExpr : SX → Option Expr
   | .list [.atom "mem", e, .atom n] => do some (.member false (← readExpr e) n)
   | .list [.atom "omem", e, .atom n] => do some (.member true (← readExpr e) n)
   | .list [.atom "idx", e, i] => do some (.index (← readExpr e) (← readExpr i))
+  | .list [.atom "inv", f, .list [], .list as] => do some (.invoke (← readExpr f) (← readArgs as))
   | _ => none
+
+/-- `((arg e) (larg label e) …)` -/
+partial def readArgs : List SX → Option Expr
+  | [] => some .argsNil
+  | .list [.atom "arg", e] :: rest => do some (.argsCons "" (← readExpr e) (← readArgs rest))
+  | .list [.atom "larg", .atom l, e] :: rest => do some (.argsCons l (← readExpr e) (← readArgs rest))
+  | _ => none
+end
 
 def showTy : Ty → String
   | .nominal p => "(nom " ++ " ".intercalate p ++ ")"
@@ -228,5 +246,10 @@ def showExpr : Expr → String
   | .cond a b c => "(cond " ++ showExpr a ++ " " ++ showExpr b ++ " " ++ showExpr c ++ ")"
   | .member o e n => "(" ++ (if o then "omem " else "mem ") ++ showExpr e ++ " " ++ n ++ ")"
   | .index e i => "(idx " ++ showExpr e ++ " " ++ showExpr i ++ ")"
+  | .invoke f as => "(inv " ++ showExpr f ++ " () (" ++ showExpr as ++ "))"
+  | .argsNil => ""
+  | .argsCons l a rest =>
+    (if l == "" then "(arg " ++ showExpr a ++ ")" else "(larg " ++ l ++ " " ++ showExpr a ++ ")") ++
+      (match rest with | .argsNil => "" | _ => " " ++ showExpr rest)
 
 end Verif.Model.Front.Syn
